@@ -4,7 +4,7 @@
    offset/width — and order independence of the encoded link list.  Equality of whole DAGs with boxo
    and reading of boxo-written shards (after arbitrary insert/remove histories) are established per
    run by the correspondence of the builder/reader models and by the CID/size oracle. *)
-From UV Require Import Hamt.HashBits Hamt.HashBitsSpec Hamt.Build Hamt.SortProofs Base.Varint.
+From UV Require Import Hamt.HashBits Hamt.HashBitsSpec Hamt.Build Hamt.SortProofs Hamt.TrieProofs Hamt.ShardDecode Hamt.Refine Hamt.Canon Base.Varint.
 From Coq Require Import Permutation.
 Local Open Scope N_scope.
 
@@ -18,3 +18,25 @@ Theorem C08_link_order_canonical : forall ls ls',
   Permutation ls ls' -> NoDup (map link_key ls) -> sort_links ls = sort_links ls'.
 Proof. exact sort_links_perm. Qed.
 Print Assumptions C08_link_order_canonical.
+
+(* the shard form is canonical: the block and cumulative size are determined by the SET of entries for every
+   trie that keeps the HAMT invariants (bucket = hash slice of the level, sub-shard only where entries collide);
+   a reference HAMT holding the same entries, however it got there (insert/remove histories, map orders),
+   has one serialization to agree with *)
+Theorem C08_shard_form_is_canonical : forall size lg, permitted size lg ->
+  forall (H : bytes -> bytes) (t1 t2 : bnode) cs1 cs2 d,
+  t1 = BShard cs1 -> t2 = BShard cs2 ->
+  bwf lg d t1 -> bwf lg d t2 -> bok size H t1 -> bok size H t2 -> bmin t1 -> bmin t2 ->
+  NoDup (entries_of t1) -> Permutation (entries_of t1) (entries_of t2) ->
+  serialize_node size HashMurmur3 (pad_len size) t1 = serialize_node size HashMurmur3 (pad_len size) t2.
+Proof. exact ser_unique. Qed.
+Print Assumptions C08_shard_form_is_canonical.
+
+(* and shard.add builds such a trie holding exactly the entries added *)
+Theorem C08_builder_keeps_the_invariants : forall lg entries cs, add_all lg entries = Ok cs ->
+  bwf lg 0 (BShard cs) /\ bmin (BShard cs) /\ Permutation (entries_of (BShard cs)) entries.
+Proof.
+  intros lg entries cs Ha. destruct (add_all_spec lg entries cs Ha) as [Hw Hp].
+  split; [exact Hw|]. split; [exact (add_all_bmin lg entries cs Ha)|exact Hp].
+Qed.
+Print Assumptions C08_builder_keeps_the_invariants.
